@@ -186,9 +186,22 @@ def gen_case(seed, tier="quick"):
         cand = [i for i, s in enumerate(steps) if s["s"] in ("get", "to", "op", "iop", "table")]
         if cand:
             flts.append({"i": rng.choice(cand), "seam": "lib", "n": rng.choice((1, 2, 3)), "exc": "MemoryError"})
-    return {"kind": "twin14", "seed": seed, "be": be, "sys": list(sys_), "gnames": gnames, "mnames": mnames, "shape": shape,
+    case = {"kind": "twin14", "seed": seed, "be": be, "sys": list(sys_), "gnames": gnames, "mnames": mnames, "shape": shape,
             "cols": cols, "steps": steps, "faults": flts, "how": rng.choice(("a", "b", "c")), "record": as_record,
             "akorder": rng.sample(range(len(gnames)), len(gnames)) if rng.random() < 0.5 else list(range(len(gnames)))}
+    rx = random.Random(seed * 7919 + 13)     # its own stream: the cases of earlier seeds stay what they were
+    if be == "akraw" and rx.random() < 0.5:
+        # raw records may carry extra fields, also ones named like a coordinate the vector does not use (an `eta`
+        # column next to z, a `tau` next to t, rho/phi next to x/y, a `z` on a 2D vector): the same in both twins
+        lower = {"x": ["rho", "phi"], "z": ["theta", "eta"], "theta": ["eta"], "t": ["tau"]}
+        cand = ["charge"] + [e for g in gnames for e in lower.get(g, [])]
+        if dim < 3:
+            cand += ["z", "eta"]
+        if dim < 4:
+            cand += ["t", "tau"]
+        picked = [e for e in dict.fromkeys(cand) if rx.random() < 0.5] or ["charge"]
+        case["akextra"] = {e: [C.value(rx, e if e != "charge" else "x") for _ in range(n)] for e in picked}
+    return case
 
 
 # --------------------------------------------------------------------------- construction
@@ -226,6 +239,9 @@ def _build(vector, case, names, mom):
     n = len(cols[gn[0]])
     ko = case.get("akorder") or list(range(len(gn)))     # records may list their fields in any order
     recs = [{names[q]: cols[gn[q]][i] for q in ko} for i in range(n)]
+    for e, vals in (case.get("akextra") or {}).items():
+        for i in range(n):
+            recs[i][e] = vals[i]
     data = [recs[:2], [], recs[2:]] if shape == ["jag"] else ([recs[0], None, recs[2]] if shape == ["opt"] else recs)
     if be == "ak":
         if how == "a" or shape in (["jag"], ["opt"]):
@@ -387,6 +403,8 @@ def run_case(case, vector):
                 faults.set_ctx(None)
             for fk in ctx.fired:
                 stats["faults_fired"][fk[0]] += 1
+                if fk[3] == "SimCancel":
+                    stats["faults_fired"]["cancel"] = stats["faults_fired"].get("cancel", 0) + 1
         for r in out:
             if r[0] == "exc":
                 stats["raised"] += 1
